@@ -89,14 +89,19 @@ def run_jobs(jobs, ncpu, log):
     while pending or running:
         while pending and sum(j["cost"] for _, j, _ in running) < ncpu:
             idx, job = pending.pop(0)
-            p = subprocess.Popen(job["cmd"], env=job["env"], cwd=VERIF_DIR, stdout=subprocess.PIPE,
+            job["logf"] = open(job["out"] + ".log", "w+")
+            p = subprocess.Popen(job["cmd"], env=job["env"], cwd=VERIF_DIR, stdout=job["logf"],
                                  stderr=subprocess.STDOUT, text=True)
             running.append((idx, job, p))
         time.sleep(0.05)
         for item in list(running):
             idx, job, p = item
             if p.poll() is not None:
-                out = p.stdout.read()
+                job["logf"].seek(0, 2)
+                size = job["logf"].tell()
+                job["logf"].seek(max(0, size - 6000))
+                out = job["logf"].read()
+                job["logf"].close()
                 running.remove(item)
                 if os.path.exists(job["out"]):
                     with open(job["out"]) as fp:
@@ -106,7 +111,7 @@ def run_jobs(jobs, ncpu, log):
                         results[idx]["error"] = f"worker rc={p.returncode}: {out[-3000:]}"
                 else:
                     results[idx] = {"error": f"worker rc={p.returncode} no output: {out[-4000:]}",
-                                    "subcheck": job.get("sub"), "violations": []}
+                                    "subcheck": job.get("sub"), "violations": [], "crashed": p.returncode}
     return results
 
 
@@ -138,6 +143,11 @@ def main(argv=None):
         r = subprocess.run([PY, "-m", "vlib.worker", "--prop", prop, "--out", out, "--tier", a.tier,
                             "--replay", os.path.abspath(a.replay)], env=env, cwd=VERIF_DIR,
                            capture_output=True, text=True)
+        if r.returncode < 0:
+            print(f"VIOLATION property={prop} replay={a.replay}")
+            print(f"  replay process killed by signal {-r.returncode}")
+            shutil.rmtree(work, ignore_errors=True)
+            return 1
         if not os.path.exists(out):
             print(r.stdout, r.stderr, file=sys.stderr)
             shutil.rmtree(work, ignore_errors=True)
@@ -216,9 +226,39 @@ def main(argv=None):
                        "--nshards", str(s["shards"]), "--tier", a.tier, "--seed", str(verif_seed), "--out", out]
                 if a.max_examples:
                     cmd += ["--max-examples", str(a.max_examples)]
-                jobs.append({"sub": s["name"], "out": out, "cmd": cmd, "env": base_env(s["threads"]),
-                             "cost": min(ncpu, s["threads"])})
+                jenv = base_env(s["threads"])
+                jenv["VERIF_CASELOG"] = out + ".cases.jsonl"
+                jobs.append({"sub": s["name"], "out": out, "cmd": cmd, "env": jenv,
+                             "cost": min(ncpu, s["threads"]), "caselog": out + ".cases.jsonl", "shard": k})
     results = run_jobs(jobs, ncpu, log)
+
+    # ---- a worker killed by the code under test (e.g. heap corruption from an out-of-bounds write in a
+    # compiled kernel): replay the last cases it ran in a fresh process; a crash or violation there is a
+    # violation whose replay file is that case log.
+    crash_violations = []
+    for job, res in zip(jobs, results):
+        if res and res.get("crashed") is not None and job.get("caselog") and os.path.exists(job["caselog"]):
+            dst = os.path.join(VERIF_DIR, "replays", prop, f"crash-{job['sub']}-{job['shard']}.jsonl")
+            os.makedirs(os.path.dirname(dst), exist_ok=True)
+            with open(job["caselog"]) as fp:
+                lines = [l for l in fp.read().splitlines() if l.strip()][-12:]
+            with open(dst, "w") as fp:
+                fp.write("\n".join(lines) + "\n")
+            rout = os.path.join(work, f"crashreplay-{job['sub']}-{job['shard']}.json")
+            r = subprocess.run([PY, "-m", "vlib.worker", "--prop", prop, "--out", rout, "--tier", a.tier,
+                                "--replay", dst], env=base_env(2), cwd=VERIF_DIR, capture_output=True, text=True)
+            confirmed = None
+            if r.returncode < 0:
+                confirmed = f"process killed by signal {-r.returncode} while replaying the last cases"
+            elif os.path.exists(rout):
+                with open(rout) as fp:
+                    rdoc = json.load(fp)
+                for rr in rdoc.get("replays", []):
+                    if rr.get("failure"):
+                        confirmed = f"{rr['failure']['sig']}: {rr['failure']['msg'][:300]}"
+            if confirmed:
+                crash_violations.append((job["sub"], f"crash:rc={res['crashed']}", confirmed, dst))
+                res["error"] = None
 
     # ---- merge
     violations = []  # (subcheck, sig, msg, case)
@@ -297,6 +337,15 @@ def main(argv=None):
                        "seed": verif_seed, "tier": a.tier}, path)
         out_lines.append(f"VIOLATION property={prop} replay={os.path.relpath(path, VERIF_DIR)}")
         out_lines.append(f"  [{name}] {sig}: {msg[:600]}")
+        rc = 1
+
+    for name, sig, msg, path in crash_violations:
+        if (name, sig) in seen:
+            continue
+        seen.add((name, sig))
+        nviol += 1
+        out_lines.append(f"VIOLATION property={prop} replay={os.path.relpath(path, VERIF_DIR)}")
+        out_lines.append(f"  [{name}] worker process died ({sig}); {msg}")
         rc = 1
 
     vacuous = []
